@@ -48,7 +48,7 @@ def blocksOfWith (both : Bool) (c : Cfg) (dlen : Nat) : Nat :=
 
 /-- which of the two rules the tree under test has (ONE switch: set it to `true` when the repair of KF-WAV-GSM-PAD is
     merged; every theorem below is stated for an explicit rule or for both) -/
-def padRuleBoth : Bool := false
+def padRuleBoth : Bool := true
 
 def blocksOf (c : Cfg) (dlen : Nat) : Nat := blocksOfWith padRuleBoth c dlen
 
